@@ -23,6 +23,8 @@ def parse_spans(s):
     s = s.strip()
     if s == "_imported_":
         return []
+    if s == "":
+        return [[-1, -1]]  # neither spans nor `_imported_`: never equal to a structured row (the property words both forms)
     s = re.sub(r"</?(details|summary)>", " ", s).replace("<br>", " ")
     out = []
     for part in s.replace(",", " ").split():
